@@ -133,8 +133,13 @@ struct ETr {
     bool a = ok("move-assign to"), b = o.ok("move-assign from");
     G.elem_event(EV_MOVE_ASSIGN, this, &o);
     if (this == &o) {
-      if (G.inVecOp) elem_viol("move-assign", "element move-assigned onto itself");
-      else ++g_elems.selfMoveOutsideVec;
+      if (G.inVecOp) {
+        // a vector never needs this; the result of self-move-assignment is unspecified for many types: make it visible
+        elem_viol("move-assign", "element move-assigned onto itself");
+        if (a) { key_ = kPoisonKey; pay_ = kPoisonKey; rec()->state = ES_MOVED; }
+      } else {
+        ++g_elems.selfMoveOutsideVec;
+      }
       return *this;
     }
     if (b) o.read_check("move-assign from");
@@ -236,8 +241,13 @@ struct ENonTr {
     bool a = ok("move-assign to"), b = o.ok("move-assign from");
     G.elem_event(EV_MOVE_ASSIGN, this, &o);
     if (this == &o) {
-      if (G.inVecOp) elem_viol("move-assign", "element move-assigned onto itself");
-      else ++g_elems.selfMoveOutsideVec;
+      if (G.inVecOp) {
+        // a vector never needs this; the result of self-move-assignment is unspecified for many types: make it visible
+        elem_viol("move-assign", "element move-assigned onto itself");
+        if (a) { key_ = kPoisonKey; pay_ = kPoisonKey; rec()->state = ES_MOVED; }
+      } else {
+        ++g_elems.selfMoveOutsideVec;
+      }
       return *this;
     }
     if (b) o.read_check("move-assign from");
